@@ -4,5 +4,7 @@ CONSTANTS
   MaxStmts = 3
   MaxDepth = 2
   Kinds = {"if", "while", "whiletrue", "for", "with", "withsupp", "try"}
+  GenVars = {"x", "y"}
+  SimpleKinds = {"assign", "use", "call", "return", "raise", "break", "continue"}
 INVARIANT InvC09Strict
 CHECK_DEADLOCK FALSE
